@@ -411,14 +411,15 @@ def _run_case(case):
                         rev.save(fr)
                         full_rev = files.load(fr, fmt, tr.topology)
                         got = md.load([fns[0], fr], stride=stride, discard_overlapping_frames=case["discard"], **akw, **kw)
-                    p0, p1 = fulls_all[0][::stride], full_rev[::stride]
+                    # (the pieces as loaded, i.e. restricted to the selected atoms: the overlap rule looks at those)
+                    p0, p1 = expect(fulls_all[0][::stride]), expect(full_rev[::stride])
                     overlap = bool(np.all(np.abs(p1.xyz[0] - p0.xyz[-1]) < 2e-3))
                     if case["discard"] and overlap and len(p0) > 0:
                         # documented rule: the last frame of a piece is dropped when the next piece begins with (nearly) the same frame
                         labels.append("overlap-discarded")
                         p0 = p0[:-1]
                     exp2 = p1 if len(p0) == 0 else md.join([p0, p1], check_topology=False)
-                    cmp("load-list-overlapping(discard=%s)" % case["discard"], got, expect(exp2))
+                    cmp("load-list-overlapping(discard=%s)" % case["discard"], got, exp2)
                     nontrivial = True
             else:
                 chunk, skip = case["chunk"], case["skip"]
